@@ -192,6 +192,15 @@ pub fn observe(repo: &Repo, fmt: &str) -> Value {
     }
 }
 
+/// `zerv flow -C <repo> --post-mode commit` in the given output format (clean work tree)
+fn flow_out(repo: &Repo, fmt: &str) -> Option<String> {
+    let dir = repo.dir.to_string_lossy().to_string();
+    match run_cli(&argv(&["flow", "-C", &dir, "--source", "git", "--post-mode", "commit", "--output-format", fmt]), None) {
+        Outcome::Ok(s) => Some(s),
+        _ => None,
+    }
+}
+
 const KINDS: &[&str] = &["clean", "modified", "staged", "untracked", "ignored"];
 
 fn expected_dirty(kind: &str) -> bool {
@@ -335,6 +344,7 @@ pub fn record(args: &[String]) {
             };
             // "merge" must make a commit, "mergeff" must move HEAD: otherwise git did nothing
             let before = (repo.hashes.len(), repo.git(&["rev-parse", "HEAD"], None).unwrap_or_default());
+            let flow_before = if op == "commit" { (flow_out(&repo, "semver"), flow_out(&repo, "pep440"), observe(&repo, "auto")) } else { (None, None, json!({})) };
             if repo.apply(op, &arg).is_err() {
                 continue;
             }
@@ -349,6 +359,16 @@ pub fn record(args: &[String]) {
                 _ => {}
             }
             events.push(json!({"k": "op", "op": op, "arg": arg}));
+            if op == "commit" {
+                let after = (flow_out(&repo, "semver"), flow_out(&repo, "pep440"), observe(&repo, "auto"));
+                if let (Some(s0), Some(p0), Some(s1), Some(p1)) = (&flow_before.0, &flow_before.1, &after.0, &after.1) {
+                    // same base tag before and after (a commit cannot change it) and a branch checked out
+                    if flow_before.2["kind"] == "ok" && after.2["kind"] == "ok" && flow_before.2["tag"] == after.2["tag"] && after.2["branch"] != "" {
+                        events.push(json!({"k": "flowpair", "tag": after.2["tag"], "branch": after.2["branch"],
+                                           "sv0": to_cps(s0), "sv1": to_cps(s1), "pep0": to_cps(p0), "pep1": to_cps(p1)}));
+                    }
+                }
+            }
             let fmt = ["auto", "semver", "pep440"][rng.gen_range(0..3)];
             let kind = KINDS[[0, 0, 0, 1, 2, 3, 4][rng.gen_range(0..7)]];
             repo.touch(kind);
